@@ -121,6 +121,9 @@ class ExprMixin:
         if isinstance(node, ast.ListComp):
             yield from self.ev_listcomp(node, st)
             return
+        if isinstance(node, ast.Dict) and not node.keys:
+            yield st, mk_obj('dict', 'empty')
+            return
         if isinstance(node, ast.Call):
             yield from self.ev_call(node, st)
             return
